@@ -7,7 +7,13 @@ import (
 // Shape describes one way of forming a cycle in the control-flow / call graph of a guest and
 // how that cycle is entered.
 type Shape struct {
-	Kind string `json:"kind"` // "loop" | "calls"
+	Kind string `json:"kind"` // "loop" | "calls" | "host-recursion"
+
+	// Kind "host-recursion": the cycle is closed by a host function: guest cycle -> host recur ->
+	// mod.ExportedFunction("cycle").Call(ctx) -> guest cycle -> ... with no loop header or tail
+	// call on the way. The host function itself makes the context done when it is entered for the
+	// TriggerDepth-th time (before it calls back into the guest).
+	TriggerDepth int `json:"trigger_depth,omitempty"`
 
 	// Kind "loop"
 	Back  string `json:"back,omitempty"`  // back edge: "br" | "br_if" | "br_table"
@@ -56,8 +62,8 @@ func (s *Shape) tailOnly() bool {
 //	exit-or-overflow   the cycle grows the call stack on every round: the engine may run into
 //	                   call-stack exhaustion on its own before or after the trigger
 func (s *Shape) class() string {
-	if s.Kind == "loop" || s.tailOnly() {
-		return "must-exit"
+	if s.Kind == "loop" || s.tailOnly() || s.Kind == "host-recursion" {
+		return "must-exit" // host-recursion: every round enters an api.Function.Call, which looks at its context
 	}
 	return "exit-or-overflow"
 }
@@ -65,7 +71,7 @@ func (s *Shape) class() string {
 // hasCheckPoint: every round of the cycle passes a point at which the engines look at the closed
 // state (a loop header or a tail call), so a slow round does not make the guest unstoppable.
 func (s *Shape) hasCheckPoint() bool {
-	return s.Kind == "loop" || s.Inner > 0 || s.tailOnly()
+	return s.Kind == "loop" || s.Inner > 0 || s.tailOnly() || s.Kind == "host-recursion"
 }
 
 // plain is the shape of the upstream example: a bare `loop ... br 0`.
@@ -85,6 +91,7 @@ func buildCycle(s *Shape) []byte {
 	hb := m.ImportFunc("env", "hb", nil, nil)
 	hnop := m.ImportFunc("env", "nop", nil, nil)
 	reenter := m.ImportFunc("env", "reenter", nil, []byte{e.I32})
+	recur := m.ImportFunc("env", "recur", nil, nil)
 	nap := m.ImportFunc("env", "nap", nil, nil)
 	gate := m.ImportFunc("env", "gate", nil, nil)
 	base := m.NumImportedFuncs()
@@ -162,6 +169,12 @@ func buildCycle(s *Shape) []byte {
 		const lT32, lT64, lI, lSel = 0, 1, 2, 3
 		if s.Kind == "calls" {
 			b.Call(fF0)
+		} else if s.Kind == "host-recursion" {
+			incG(b)
+			if s.Limit > 0 {
+				b.GlobalGet(gG).I32Const(int32(s.Limit)).Raw(e.OpI32GeU).If().GlobalGet(gG).Return().End()
+			}
+			b.Call(recur)
 		} else {
 			// labels seen from the body of the spinning loop: 0 = the loop, then (Nest inner) the outer loop, then $out
 			out := uint32(1)
